@@ -66,7 +66,11 @@ def job_default_validators(ses, which):
 
 
 def run(ses, which='exp'):
-    run_jobs(ses, [(job_default_validators, (which,))])
+    from . import c15
+    jobs = [(job_default_validators, (which,))]
+    # the path from PasetoParser::parse to those validators: every protocol's prelude parse hands the core's plaintext to verify_claims of the same, unchanged parser
+    jobs += [(c15.job_parse, (p, True, ('c15', 'c16'))) for p in PROTOCOLS] + [(c15.job_verify_claims, (1, 1, ('c15', 'c16'))), (c15.job_registration, (('c15', 'c16'),))]
+    run_jobs(ses, jobs)
     ses.trusted_base = TRUSTED
     ses.assumptions = ['payload is any string / any JSON value; the clock is any instant']
     ses.bounds.update({'payload': 'unbounded', 'instants': 'any integer nanosecond count'})
